@@ -297,7 +297,14 @@ def decide(pid, pc, tier, seed, work, t0, finder_driver):
     # obligations relevant to this property
     mine = [e for e in ledger if pid in e['props']]
     my_fail = [f for f in failures if pid in f['props']]
-    other_fail = [f for f in failures if pid not in f['props']]
+    if pc.get('safety_only'):
+        # C07: only Verus' implicit obligations (bounds, unwrap, overflow, unreachable panic, std panic
+        # preconditions at call sites) and termination count; functional clauses belong to other properties
+        mine = [e for e in mine if e['kind'] in ('implicit', 'decreases')]
+        def _is_safety(f):
+            return f['label'].endswith('.safety') or '.call-pre' in f['label'] or 'termination' in f['message'] or 'decreases' in f['message']
+        my_fail = [f for f in my_fail if _is_safety(f)]
+    other_fail = [f for f in failures if f not in my_fail]
     failed_labels = set(f['label'] for f in my_fail)
     failed_fns = set((f['unit'], f['fn']) for f in my_fail)
     # an obligation counts as discharged only if its function has no failed obligation attributed
